@@ -19,6 +19,11 @@ pub enum HOp {
     Collect,
     ReadCount,
     ReadSum,
+    /// `start_timer()`, the thread's virtual clock advanced by this many seconds, `observe_duration()`: an observation
+    /// of exactly that value (the call recorded in the history is the stop)
+    Timer(f64),
+    /// observe through the thread's second handle (a further clone of the histogram)
+    ObserveB(f64),
 }
 
 #[derive(Clone, Copy, Debug, PartialEq, Eq, serde::Serialize, serde::Deserialize)]
@@ -38,6 +43,8 @@ pub struct HistShared {
     pub h: Histogram,
     pub vec: Option<HistogramVec>,
     pub reg: Option<Registry>,
+    /// a thread's second handle (ObserveB)
+    pub second: Option<Histogram>,
 }
 
 pub struct HistDriver {
@@ -82,6 +89,22 @@ impl HistShared {
                 l.flush();
                 Val::Unit
             }
+            HOp::Timer(v) => {
+                let t0: i128 = 50_000_000_000;
+                prometheus::verif::time::set_thread_clock_nanos(Some(t0));
+                let t = self.h.start_timer();
+                prometheus::verif::time::set_thread_clock_nanos(Some(t0 + (*v * 1e9) as i128));
+                t.observe_duration();
+                prometheus::verif::time::set_thread_clock_nanos(None);
+                Val::Unit
+            }
+            HOp::ObserveB(v) => {
+                match &self.second {
+                    Some(h2) => h2.observe(*v),
+                    None => self.h.clone().observe(*v),
+                }
+                Val::Unit
+            }
             HOp::Collect => self.collect(path),
             HOp::ReadCount => Val::I(self.h.get_sample_count() as i64),
             HOp::ReadSum => Val::F(self.h.get_sample_sum()),
@@ -91,7 +114,7 @@ impl HistShared {
 
 fn values_of(op: &HOp) -> Vec<f64> {
     match op {
-        HOp::Observe(v) => vec![*v],
+        HOp::Observe(v) | HOp::Timer(v) | HOp::ObserveB(v) => vec![*v],
         HOp::Batch(vs) => vs.clone(),
         _ => vec![],
     }
@@ -127,10 +150,10 @@ impl Driver for HistDriver {
     fn setup(&self) -> HistShared {
         let opts = HistogramOpts::new("h", "help").buckets(BOUNDS.to_vec());
         let sh = match self.path {
-            Path::Direct => HistShared { h: Histogram::with_opts(opts).unwrap(), vec: None, reg: None },
+            Path::Direct => HistShared { h: Histogram::with_opts(opts).unwrap(), vec: None, reg: None, second: None },
             Path::VecChild => {
                 let v = HistogramVec::new(opts, &["l"]).unwrap();
-                HistShared { h: v.with_label_values(&["k"]), vec: Some(v), reg: None }
+                HistShared { h: v.with_label_values(&["k"]), vec: Some(v), reg: None, second: None }
             }
             Path::Registry => {
                 let h = Histogram::with_opts(opts).unwrap();
@@ -138,7 +161,7 @@ impl Driver for HistDriver {
                 let r = Registry::new();
                 prometheus::verif::set_map_seed(None);
                 r.register(Box::new(h.clone())).unwrap();
-                HistShared { h, vec: None, reg: Some(r) }
+                HistShared { h, vec: None, reg: Some(r), second: None }
             }
         };
         for op in &self.prelude {
@@ -149,14 +172,14 @@ impl Driver for HistDriver {
     fn body(&self, t: usize, sh: &HistShared, rec: &Recorder) {
         let own;
         let sh = if self.cloned {
-            own = HistShared { h: sh.h.clone(), vec: sh.vec.clone(), reg: sh.reg.clone() };
+            own = HistShared { h: sh.h.clone(), vec: sh.vec.clone(), reg: sh.reg.clone(), second: Some(sh.h.clone()) };
             &own
         } else {
             sh
         };
         for (i, op) in self.programs[t].iter().enumerate() {
             let (name, arg) = match op {
-                HOp::Observe(_) => ("observe", Val::I(i as i64)),
+                HOp::Observe(_) | HOp::Timer(_) | HOp::ObserveB(_) => ("observe", Val::I(i as i64)),
                 HOp::Batch(_) => ("flush", Val::I(i as i64)),
                 HOp::Collect => ("collect", Val::Unit),
                 HOp::ReadCount => ("get_sample_count", Val::Unit),
@@ -582,6 +605,9 @@ pub fn driver_set(prop: Prop, thorough: bool) -> Vec<Planned> {
             shapes.push(("D8 Batch|O|CC", Path::Direct, vec![vec![Batch(vec![a, e])], o(&[c]), col(2)], big));
             // collectors queueing behind one another while a third thread observes and then collects itself
             shapes.push(("D11 C|C|OC", Path::Direct, vec![col(1), col(1), vec![Observe(c), Collect]], Mode::B(2)));
+            // one thread observing through two handles of the histogram in turn (clones of clones), against a collector
+            shapes.push(("D13 OaObOa|CC", Path::Direct, vec![vec![Observe(a), ObserveB(d), Observe(e)], col(2)], Mode::U));
+            shapes.push(("D13v OaOb|CC", Path::VecChild, vec![vec![Observe(a), ObserveB(d)], col(2)], Mode::U));
             shapes.push(("D12 C|C|C|OC", Path::Direct, vec![col(1), col(1), col(1), vec![Observe(c), Collect]], Mode::B(2)));
             if thorough {
                 shapes.push(("D9 OOO|CCC", Path::Direct, vec![o(&[a, c, e]), col(3)], Mode::U));
@@ -600,6 +626,13 @@ pub fn driver_set(prop: Prop, thorough: bool) -> Vec<Planned> {
             // NaN observations (count-only oracle: termination and conservation)
             shapes.push(("E9 O(NaN)O|CCC", Path::Direct, vec![vec![Observe(f64::NAN), Observe(d)], col(3)], Mode::U));
             shapes.push(("E10 Batch(NaN)|CC", Path::Direct, vec![vec![Batch(vec![f64::NAN, a])], col(2)], Mode::U));
+            // timers: 33 stops by one thread against one stop by another (a ring or batch of pending durations wraps)
+            {
+                let pw = |k: i32| (2.0f64).powi(k);
+                let many: Vec<HOp> = (0..33).map(|k| Timer(pw(k - 9))).collect();
+                shapes.push(("E12 Tx33|T", Path::Direct, vec![many, vec![Timer(pw(24))]], Mode::B(2)));
+                shapes.push(("E13 TT|T|CC", Path::Direct, vec![vec![Timer(pw(-9)), Timer(pw(-8))], vec![Timer(pw(-7))], col(2)], Mode::B(2)));
+            }
             // a flusher whose sum update can lose the race four times in a row
             shapes.push(("E11 Batch|OOOO", Path::Direct, vec![vec![Batch(vec![a])], o(&[b, c, d, f])], Mode::U));
             if thorough {
